@@ -123,6 +123,14 @@ theorem cancelled_step {s s' : State} (a : Action) {i : Nat} {cy : Cycle} (hget 
       · cases h; exact set_keeps h0 hget hc hm rfl rfl
       · cases h
     · cases h
+  | pubRefuse c =>
+    simp only [step] at h
+    split at h
+    · rename_i cy0 h0
+      split at h
+      · cases h; exact set_keeps h0 hget hc hm rfl rfl
+      · cases h
+    · cases h
   | gatherersDone c =>
     simp only [step] at h
     split at h
@@ -274,6 +282,16 @@ theorem silent_step {s s' : State} (a : Action) {i : Nat} {cy : Cycle} (hget : s
       · cases h
     · cases h
   | pubAbort c =>
+    simp only [step] at h
+    split at h
+    · rename_i cy0 h0
+      split at h
+      · cases h
+        obtain ⟨x, hx, h1⟩ := set_keeps_c (cy' := { cy0 with checked := cy0.checked - 1 }) h0 hget hc rfl
+        exact ⟨x, [], hx, h1, by simp, by simp⟩
+      · cases h
+    · cases h
+  | pubRefuse c =>
     simp only [step] at h
     split at h
     · rename_i cy0 h0
